@@ -361,7 +361,7 @@ def main(argv):
     rep = harness.Report(PROP, a.tier, a.seed, "fault_enumeration")
     bases = bases_for(a.tier, a.seed)
     jobs = [{"base": b, "seed": core.h64(a.seed, "c25", i), "tier": a.tier} for i, b in enumerate(bases)]
-    results = harness.pmap(explore, jobs, chunk=1, hang_s=900)
+    results = harness.pmap(explore, jobs, chunk=1, hang_s=900 if a.tier == "quick" else 3000)
     keys = ["cuts", "unique_states", "torn", "chain_cuts", "insitu_checked", "resumed_ok", "restart_from_scratch"]
     tot = {k: 0 for k in keys}
     windows, samples, fails, nbase, bystrat = {}, [], {}, 0, {}
